@@ -157,6 +157,52 @@ fn fixup_sig_digests(bytes: &mut [u8]) {
     patch(tags::SIG_MD5, digests::md5_raw(&[&hb, &payload]));
 }
 
+fn reencode_sig(bytes: &[u8], entries: Vec<(u32, Val)>) -> Option<Vec<u8>> {
+    let seg = fmt::decode(bytes).ok()?;
+    let mut entries = entries;
+    entries.sort_by_key(|e| e.0);
+    let sig = fmt::layout(&entries, Some(fmt::TAG_HEADERSIGNATURES));
+    let mut out = bytes[..fmt::LEAD_LEN].to_vec();
+    sig.encode(&mut out);
+    out.extend(std::iter::repeat(0u8).take(fmt::sig_padding(sig.dl)));
+    out.extend_from_slice(&bytes[seg.hdr.start..]);
+    Some(out)
+}
+
+fn sig_entries(bytes: &[u8]) -> Option<Vec<(u32, Val)>> {
+    let seg = fmt::decode(bytes).ok()?;
+    let mut v = vec![];
+    for e in &seg.sig.entries {
+        if e.tag >= 100 {
+            v.push((e.tag, fmt::decode_entry(seg.sig.store(bytes), e)?));
+        }
+    }
+    Some(v)
+}
+
+/// the package with the OpenPGP tag removed: verification has to go through the legacy tag
+fn legacy_only(bytes: &[u8]) -> Option<Vec<u8>> {
+    let mut e = sig_entries(bytes)?;
+    e.retain(|x| x.0 != tags::SIG_OPENPGP);
+    if !e.iter().any(|x| x.0 == tags::SIG_RSA || x.0 == tags::SIG_DSA) {
+        return None;
+    }
+    reencode_sig(bytes, e)
+}
+
+/// the package with a single legacy header+payload signature (tag 1002) made with key `k`
+fn header_and_payload_signed(bytes: &[u8], k: usize) -> Option<Vec<u8>> {
+    use rpm::signature::Signing;
+    let seg = fmt::decode(bytes).ok()?;
+    let mut data = fmt::normalized_header_bytes(bytes, &seg.hdr);
+    data.extend_from_slice(&bytes[seg.payload_start..]);
+    let blob = panics::catch(|| keys().signers[k].sign(&data[..], rpm::Timestamp(1_600_000_000))).ok()?.ok()?;
+    let mut e = sig_entries(bytes)?;
+    e.retain(|x| ![tags::SIG_OPENPGP, tags::SIG_RSA, tags::SIG_DSA].contains(&x.0));
+    e.push((tags::SIG_PGP, Val::Bin(blob)));
+    reencode_sig(bytes, e)
+}
+
 /// rebuild the signature header: signatures kept verbatim, digests replaced by (or added as)
 /// correct MD5 / SHA1 / SHA256 values of the current header and payload
 fn rebuild_sig_header(bytes: &[u8]) -> Option<Vec<u8>> {
@@ -234,27 +280,46 @@ impl Property for C02 {
                 cfg.source_date = Some(1_600_000_000);
                 cfg.compression = Comp { kind: if with_file { 2 } else { 1 }, level: Some(1).filter(|_| with_file) };
                 if with_file {
-                    cfg.files = vec![FileSpec { dot_style: false, components: vec!["opt".into(), "f".into()], content: ContentSpec { size: 40, kind: 1, seed: 1 }, mode: ModeSpec::Regular(0o644), user: None, group: None, flags: 0, caps: None, symlink: None, mtime: 1, verify: None }];
+                    cfg.files = vec![FileSpec { dot_style: false, components: vec!["opt".into(), "f".into()], content: ContentSpec { size: 40, kind: 1, seed: 1 }, mode: ModeSpec::Regular(0o644), user: None, group: None, flags: 0, caps: None, symlink: None, mtime: 1, verify: None, mode_as_int: 0 }];
                 }
                 let b = panics::catch(|| build(&cfg).result.ok().and_then(|p| {
                     let mut v = Vec::new();
                     p.write(&mut v).ok().map(|_| v)
                 }));
                 if let Ok(Some(bytes)) = b {
-                    bases.push((format!("{}-{}", crate::gen::keys::KEY_NAMES[k as usize], if with_file { "file" } else { "nofiles" }), bytes, k as usize));
+                    let name = format!("{}-{}", crate::gen::keys::KEY_NAMES[k as usize], if with_file { "file" } else { "nofiles" });
+                    // the same package with only the legacy header-only tag (RSA/DSA) left, and with a
+                    // legacy header+payload signature (tag 1002) made with the same key
+                    if with_file || tier == Tier::Thorough {
+                        if let Some(legacy) = legacy_only(&bytes) {
+                            bases.push((format!("{name}-legacy-tag-only"), legacy, k as usize));
+                        }
+                        if let Some(v3) = header_and_payload_signed(&bytes, k as usize) {
+                            bases.push((format!("{name}-header+payload-tag"), v3, k as usize));
+                        }
+                    }
+                    bases.push((name, bytes, k as usize));
                 }
             }
         }
+        // self-check: an untouched base must verify with its key, otherwise it is no base
+        bases.retain(|(name, bytes, key)| {
+            let ok = panics::catch(|| rpm::Package::parse(&mut &bytes[..]).map(|p| p.verify_signature(&keys().verifiers[*key]).is_ok())).map(|r| r.unwrap_or(false)).unwrap_or(false);
+            if !ok {
+                eprintln!("C02: base {name} does not verify untouched - dropped");
+            }
+            ok
+        });
         C02 { bases }
     }
     fn rule(&self) -> String {
-        format!("domain A: hand-encoded packages whose signature header carries any subset of OPENPGP/RSA/DSA/PGP(header+payload) tags, each with right or wrong data type, 0..3 OpenPGP entries (valid base64 of unique blobs, malformed base64, empty), right/wrong digests, verified with a recording verifier scripted with every accept/reject pattern and five different error kinds for rejections; domain B: {} packages built and signed by the library with EVERY single bit of main header and payload flipped, plain, with attacker-side in-place recomputation of all digests, and with the unsigned signature header rebuilt around the kept signatures (fresh MD5/SHA1/SHA256 added), plus random multi-byte edits, verified with the real pgp verifier. Non-trivial: A = verifier consulted or result Ok; B = the mutant parses and differs from the original; distinct by hash of the package bytes.", self.bases.len())
+        format!("domain A: hand-encoded packages whose signature header carries any subset of OPENPGP/RSA/DSA/PGP(header+payload) tags, each with right or wrong data type, 0..3 OpenPGP entries (valid base64 of unique blobs, malformed base64, empty), right/wrong digests, verified with a recording verifier scripted with every accept/reject pattern and five different error kinds for rejections; domain B: {} packages built and signed by the library (as emitted, reduced to the legacy header-only tag, and re-signed with a legacy header+payload tag) with EVERY single bit of main header and payload flipped, plain, with attacker-side in-place recomputation of all digests, and with the unsigned signature header rebuilt around the kept signatures (fresh MD5/SHA1/SHA256 added), plus random multi-byte edits, verified with the real pgp verifier. Non-trivial: A = verifier consulted or result Ok; B = the mutant parses and differs from the original; distinct by hash of the package bytes.", self.bases.len())
     }
     fn assumptions(&self) -> Vec<String> {
         vec!["the converse (a correctly signed package must verify) is not part of the statement and not asserted here (C10 covers it)".into()]
     }
     fn required_labels(&self, _t: Tier) -> Vec<&'static str> {
-        vec!["recording", "returned-ok", "verifier-consulted", "openpgp-zero-entries", "openpgp-wrong-type", "legacy-pgp-tag", "bitflip-differs", "bitflip-fixup", "bitflip-sig-rebuilt", "all-accepted-but-digest-wrong"]
+        vec!["base-legacy-tag-only", "base-header+payload-tag", "recording", "returned-ok", "verifier-consulted", "openpgp-zero-entries", "openpgp-wrong-type", "legacy-pgp-tag", "bitflip-differs", "bitflip-fixup", "bitflip-sig-rebuilt", "all-accepted-but-digest-wrong"]
     }
     fn phases(&self, tier: Tier) -> Vec<Phase<C02Case>> {
         let mut flips: Vec<(u8, u32)> = vec![];
@@ -359,6 +424,15 @@ impl C02 {
             return Ok(());
         }
         o.label(format!("{what}-differs"));
+        if what == "bitflip" {
+            let name = self.bases.iter().find(|b| b.1 == orig).map(|b| b.0.as_str()).unwrap_or("");
+            if name.ends_with("legacy-tag-only") {
+                o.label("base-legacy-tag-only");
+            }
+            if name.ends_with("header+payload-tag") {
+                o.label("base-header+payload-tag");
+            }
+        }
         if fixup {
             o.label(format!("{what}-fixup"));
         }
